@@ -1369,6 +1369,7 @@ class Linker:
         self.__globals = {}
         self.__loader = loader
         self.__pendingImports = set()
+        self.__loadedImports = set()
 
     def AddModule(self, module: Module):
         self.__modules.append(module)
@@ -1383,8 +1384,14 @@ class Linker:
         self.__pendingImports.update(module.Imports)
 
     def Link(self) -> Program:
-        # add all imported modules
-        for importedModule in self.__pendingImports:
+        # add all imported modules, including the imports of imported
+        # modules. Every module is loaded exactly once
+        while self.__pendingImports:
+            importedModule = min(self.__pendingImports)
+            self.__pendingImports.remove(importedModule)
+            if importedModule in self.__loadedImports:
+                continue
+            self.__loadedImports.add(importedModule)
             self.AddModule(self.__loader.Load(importedModule))
 
         return Program(self.__functions, self.__globals)
